@@ -1597,6 +1597,23 @@ impl<K: Hash + Eq, V, RH: BuildHasher, FH: BuildHasher, GH: BuildHasher>
     }
 }
 
+#[cfg(feature = "verif-hooks")]
+impl<K: Hash + Eq, V, RH, FH, GH> TwoQueueCache<K, V, RH, FH, GH> {
+    /// Verification hook: `(recent, frequent, ghost, recent quota)`.
+    #[doc(hidden)]
+    #[allow(clippy::type_complexity)]
+    pub fn verif_parts(
+        &self,
+    ) -> (
+        &RawLRU<K, V, DefaultEvictCallback, RH>,
+        &RawLRU<K, V, DefaultEvictCallback, FH>,
+        &RawLRU<K, V, DefaultEvictCallback, GH>,
+        usize,
+    ) {
+        (&self.recent, &self.frequent, &self.ghost, self.recent_size)
+    }
+}
+
 impl<K: Hash + Eq, V, RH: BuildHasher, FH: BuildHasher, GH: BuildHasher> fmt::Debug
     for TwoQueueCache<K, V, RH, FH, GH>
 {
